@@ -20,7 +20,7 @@ def confirm(mdir, wt):
     dest, cmd = m.group(2), m.group(3)
     res = dict(dir=mdir, demo_dest=dest, demo_cmd=cmd)
     sh("git checkout -- . && git clean -fdq -e target", wt)
-    rc, out = sh("git apply " + os.path.join(mdir, "patch.diff"), wt)
+    rc, out = sh("patch -p1 -s -i " + os.path.join(mdir, "patch.diff"), wt)
     if rc != 0:
         return dict(res, ok=False, why="patch does not apply: " + out[-300:])
     rc, out = sh("cargo nextest run --workspace --no-fail-fast --offline --test-threads 8 2>&1 | tail -5", wt)
@@ -32,7 +32,7 @@ def confirm(mdir, wt):
     ran1 = bool(re.search(r"test result|tests run", out1))
     failed1 = bool(re.search(r"test result: FAILED|[1-9]\d* failed|FAILED", out1))
     res["demo_fails_with_change"] = ran1 and failed1
-    sh("git checkout -- .", wt)
+    sh("git checkout -- . && git clean -fdq -e target -e rcgen/tests -e rustls-cert-gen/tests", wt)
     rc2, out2 = sh(cmd + " 2>&1 | tail -30", wt)
     passed2 = bool(re.search(r"test result: ok|\d+ passed", out2)) and not re.search(r"test result: FAILED|[1-9]\d* failed", out2)
     m2 = re.search(r"(\d+) passed", out2)
